@@ -209,7 +209,9 @@ func (ev *SpecEnv) eval(e ast.Expr) (Val, types.Type) {
 		switch s := v.(type) {
 		case SliceV:
 			if s.Region == nil {
-				ev.fail("index of nil slice")
+				// reading a nil slice in a spec: an arbitrary value (such reads are guarded by the clause)
+				es, _ := ev.ex.elemSort(s.Elem)
+				return Scalar{ev.ex.fresh("nilread", es)}, s.Elem
 			}
 			mem := ev.heapMem(s.Region)
 			var et types.Type
